@@ -13,7 +13,6 @@ import (
 	"sort"
 	"strings"
 
-	"github.com/laizy/bigint"
 	"github.com/ontio/ontology/common"
 	"github.com/ontio/ontology/common/config"
 	"github.com/ontio/ontology/core/states"
@@ -114,16 +113,47 @@ func (w *world) raw() map[string]string {
 	return out
 }
 
+// decodeBalance is an independent decoder of a stored balance / allowance record, written from
+// the format (not calling the package's own decoder): 1 byte state version, var-length value;
+// version 0 = uint64 little-endian count of whole tokens (x 10^9 base units), version 1 = the
+// base-unit amount as little-endian two's-complement bytes (minimal length).
 func decodeBalance(val []byte) (*big.Int, error) {
-	item := new(states.StorageItem)
-	if err := item.Deserialization(common.NewZeroCopySource(val)); err != nil {
-		return nil, err
+	if len(val) < 2 {
+		return nil, fmt.Errorf("record too short")
 	}
-	b, err := states.NativeTokenBalanceFromStorageItem(item)
-	if err != nil {
-		return nil, err
+	ver := val[0]
+	n, hdr := uint64(val[1]), 2
+	switch val[1] {
+	case 0xfd:
+		if len(val) < 4 {
+			return nil, fmt.Errorf("truncated length")
+		}
+		n, hdr = uint64(binary.LittleEndian.Uint16(val[2:4])), 4
+	case 0xfe, 0xff:
+		return nil, fmt.Errorf("implausible value length")
 	}
-	return b.ToBigInt(), nil
+	body := val[hdr:]
+	if uint64(len(body)) != n {
+		return nil, fmt.Errorf("value length %d, header says %d", len(body), n)
+	}
+	switch ver {
+	case 0:
+		if len(body) != 8 {
+			return nil, fmt.Errorf("version-0 record of %d bytes", len(body))
+		}
+		return new(big.Int).Mul(new(big.Int).SetUint64(binary.LittleEndian.Uint64(body)), scale), nil
+	case 1:
+		be := make([]byte, len(body))
+		for i := range body {
+			be[len(body)-1-i] = body[i]
+		}
+		v := new(big.Int).SetBytes(be)
+		if len(body) > 0 && body[len(body)-1]&0x80 != 0 {
+			return nil, fmt.Errorf("negative balance")
+		}
+		return v, nil
+	}
+	return nil, fmt.Errorf("unknown state version %d", ver)
 }
 
 func (w *world) dump() (*dump, error) {
@@ -178,8 +208,27 @@ func (w *world) dump() (*dump, error) {
 
 // ---------------------------------------------------------------- initial state
 
+// balanceBytes writes a start-state record from the format, independently of the package's
+// encoder: whole-token amounts as version 0 (uint64 count), anything else as version 1 bytes.
 func balanceBytes(v *big.Int) []byte {
-	return states.NativeTokenBalance{Balance: bigint.New(v)}.MustToStorageItemBytes()
+	q, r := new(big.Int).QuoRem(v, scale, new(big.Int))
+	if r.Sign() == 0 && q.IsUint64() {
+		out := []byte{0, 8, 0, 0, 0, 0, 0, 0, 0, 0}
+		binary.LittleEndian.PutUint64(out[2:], q.Uint64())
+		return out
+	}
+	be := v.Bytes()
+	le := make([]byte, 0, len(be)+1)
+	for i := len(be) - 1; i >= 0; i-- {
+		le = append(le, be[i])
+	}
+	if le[len(le)-1]&0x80 != 0 {
+		le = append(le, 0)
+	}
+	if len(le) >= 0xfd {
+		panic("amount too long")
+	}
+	return append([]byte{1, byte(len(le))}, le...)
 }
 
 func offsetKey(a common.Address) []byte {
